@@ -86,14 +86,17 @@ fn timeout_handler(data: TimerData) {
     }
 
     let event_data = unsafe { &mut *data.event_data };
-    // remove the event timer
-    event_data.timer.borrow_mut().take();
 
-    // get and check the coroutine
+    // get and check the coroutine, only the one that takes the coroutine owns the
+    // io operation and is allowed to touch its `timer` cell: an other thread may
+    // have just taken it in `fast_schedule`/`schedule` and is now taking the timer
     let mut co = match event_data.co.take() {
         Some(co) => co,
         None => return,
     };
+
+    // remove the event timer
+    event_data.timer.borrow_mut().take();
 
     set_co_para(&mut co, io::Error::new(io::ErrorKind::TimedOut, "timeout"));
 
@@ -150,16 +153,11 @@ impl EventData {
             None => return, // it's already take by selector
         };
 
-        // it's safe to remove the timer since we are running the timer_list in the same thread
         #[cfg(feature = "io_timeout")]
-        self.timer.borrow_mut().take().map(|h| {
-            unsafe {
-                // tell the timer function not to cancel the io
-                // it's not always true that you can really remove the timer entry
-                h.with_mut_data(|value| value.data.event_data = std::ptr::null_mut());
-            }
-            h.remove()
-        });
+        let co = match self.del_timer(co) {
+            Some(co) => co,
+            None => return, // passed to the selector thread together with the timer
+        };
 
         // schedule the coroutine
         get_scheduler().schedule(co);
@@ -173,20 +171,56 @@ impl EventData {
             None => return, // it's already take by selector
         };
 
-        // it's safe to remove the timer since we are running the timer_list in the same thread
         #[cfg(feature = "io_timeout")]
-        self.timer.borrow_mut().take().map(|h| {
-            unsafe {
-                // tell the timer function not to cancel the io
-                // it's not always true that you can really remove the timer entry
-                h.with_mut_data(|value| value.data.event_data = std::ptr::null_mut());
-            }
-            h.remove()
-        });
+        let co = match self.del_timer(co) {
+            Some(co) => co,
+            None => return, // passed to the selector thread together with the timer
+        };
 
         // run the coroutine
         run_coroutine(co);
     }
+
+    /// remove the timer of the io operation that `co` was blocked on.
+    /// must be called by the one that took `co` out of `self.co`.
+    ///
+    /// the timer entry lives in the timer list of the selector thread `fd % workers`,
+    /// and only the consumer of that list is allowed to remove an entry or to drop
+    /// its handle (see `may_queue::mpsc_list_v1::Entry::remove`). So if we are not
+    /// running on that thread pass both the handle and the coroutine to it and
+    /// return `None`: the coroutine must not run before its timer is removed, or
+    /// the stale timer could hit the next io operation on the same fd.
+    #[cfg(feature = "io_timeout")]
+    #[inline]
+    fn del_timer(&self, co: CoroutineImpl) -> Option<CoroutineImpl> {
+        let h = match self.timer.borrow_mut().take() {
+            Some(h) => h,
+            None => return Some(co),
+        };
+
+        let s = get_scheduler();
+        let id = self.fd as usize % s.workers;
+        if crate::scheduler::WORKER_ID.get() == id {
+            // it's safe to remove the timer since we are running the timer_list in the same thread
+            remove_timer(h);
+            return Some(co);
+        }
+
+        s.get_selector().del_io_timer(id, h, co);
+        None
+    }
+}
+
+/// remove the timer entry, must run in the selector thread that owns the timer list
+#[cfg(feature = "io_timeout")]
+#[inline]
+pub(crate) fn remove_timer(h: TimerHandle) {
+    unsafe {
+        // tell the timer function not to cancel the io
+        // it's not always true that you can really remove the timer entry
+        h.with_mut_data(|value| value.data.event_data = std::ptr::null_mut());
+    }
+    h.remove();
 }
 
 // each file associated data
